@@ -6,6 +6,7 @@ import props_classes
 import props_gendir
 import props_crash
 import props_wellformed
+import props_numbering
 CHECKS = {
     "C01": props_parser.c01,
     "C03": props_parser.c03,
@@ -23,4 +24,5 @@ CHECKS = {
     "C14": props_gendir.c14,
     "C12": props_crash.c12,
     "C17": props_wellformed.c17,
+    "C19": props_numbering.c19,
 }
